@@ -26,7 +26,7 @@ def fleet_case(draw, broker):
             "restart": draw(st.booleans()), "tasks_limit": draw(st.sampled_from([1, 1000])),
             "fail_every": draw(st.sampled_from([0, 0, 3])), "horizon": 11.0,
             # further recurring jobs created at the same instant (same time base): their slots coincide for ever
-            "twins": draw(st.sampled_from([0, 0, 1, 2]))}
+            "twins": draw(st.sampled_from([0, 0, 1, 2])), "tz": draw(st.sampled_from([None, None, "EST5", "IST-5:30", "NZT-13"]))}
     if all(x is None for x in case["stops"]):
         case["stops"][0] = 2.5
     if broker != "mem":
@@ -150,7 +150,7 @@ def _judge_job(out: Outcome, case: dict, jid: str, runs: list, places: list, t_e
 def run_fleet(case: dict) -> Outcome:
     out = Outcome()
     try:
-        vclock.run(lambda loop: _fleet(loop, case, out), max_steps=2_500_000, jitter_seed=case["seed"] + 1)
+        vclock.run(lambda loop: _fleet(loop, case, out), max_steps=2_500_000, jitter_seed=case["seed"] + 1, tz=case.get("tz"))
     except (vclock.StepLimit, vclock.Deadlock) as e:
         out.inconclusive = True
         out.info["watchdog"] = str(e)
